@@ -403,6 +403,10 @@ def replay(ctx, rep):
     c = rep["case"]
     if "spec" in c:  # constructor-unit cases share C08's format
         return c08.replay(ctx, rep)
+    if "cls" in c and "shape" in c and "x_shape" not in c and c["cls"] in factories():
+        b = factories()[c["cls"]](tuple(c["shape"]))
+        print("declared shape", tuple(b.shape), "requested", tuple(c["shape"]))
+        return tuple(b.shape) == tuple(c["shape"])
     if "dist" in c or "cls" not in c or "x_shape" not in c:
         print("replay: re-run ./check C13 (enumeration cases are regenerated from the current tree)", c)
         return False
